@@ -12,7 +12,11 @@ from checks import common, sesscheck
 PROP = "C17"
 LEVEL = "other"
 MODULE = "PropC17"
-THEOREMS = ["C17_aton_toa_int", "C17_toa_is_write_rendering", "C17_aton_non_string_is_type_error"]
+THEOREMS = ["C17_aton_toa_int", "C17_toa_is_write_rendering", "C17_aton_non_string_is_type_error",
+            "C17_generators_are_the_generated_trees", "C17_fromto_yields", "C17_fromto_empty", "C17_fromto_steps",
+            "C17_indices_yields", "C17_elems_yields", "C17_seq_at_is_indexing", "C17_elems_of_non_sequence",
+            "C17_for_over_fromto_collects", "C17_fromto_session", "C17_for_over_elems_returns_the_array",
+            "C17_for_over_indices_collects", "C17_reads_successive_lines", "C17_read_at_end_of_input"]
 
 M63 = 1 << 63
 INTS = [0, 1, -1, 9, 10, 99, 100, 12345, 1 << 31, (1 << 53) - 1, 1 << 53, (1 << 53) + 1, (1 << 53) + 3,
